@@ -1,8 +1,15 @@
+mod p_parsers;
+
 fn dispatch(ctx: &vlib::common::Ctx) -> Option<i32> {
     // Engines that need jj-cli as a library live here; everything else
     // (including the CLI-driver engines, which only need the `jj` binary that
     // is built together with this one) is served by vlib.
-    vlib::dispatch(ctx)
+    match ctx.prop() {
+        "C35" => Some(p_parsers::run_c35(ctx)),
+        "C36" => Some(p_parsers::run_c36(ctx)),
+        "C44" => Some(p_parsers::run_c44(ctx)),
+        _ => vlib::dispatch(ctx),
+    }
 }
 
 fn main() {
